@@ -33,60 +33,80 @@ THEOREMS = [_T + n for n in [
     "C09_terms_distinct_sound_event_detection", "C09_perm_clip_classification",
     "C09_perm_sound_event_classification", "C09_perm_sound_event_detection", "C09_top_k_monotone",
     "C09_multilabel_clip_score", "C09_multilabel_clip_score_single", "C09_balanced_accuracy_balanced_is_accuracy",
-    "C09_range_jaccard_samples", "C09_micro_average_precision", "C09_labels_of_table_perm"]]
+    "C09_range_jaccard_samples", "C09_micro_average_precision", "C09_labels_of_table_perm",
+    # follow-up "pools, histories": the arrays the metric models consume are C19's encodings of the real tags
+    "C09_tags_bridge", "C09_items_by_tag_equality", "C09_clip_classification_by_tags", "C09_clip_multilabel_by_tags",
+    "C09_clip_multilabel_closed_scores", "C09_sound_event_tasks_by_tags"]]
 LEVEL_TEXT = ("Lean theorems over the rational model of the seven metrics and the four task drivers hold for all inputs: "
               "for each driver every metric list of the result (evaluation, clip evaluation, match) has pairwise distinct "
               "terms and survives the label-keyed AOEF mapping; permuting the clip lists leaves every run-level metric and "
               "the overall score unchanged and permutes the clip evaluations; ranges 0 <= metric <= 1; average precision = "
               "step integral = mean precision at the positives; balanced accuracy = mean recall, = accuracy on balanced "
               "data; handling of the 'none' class; scores are means; the multilabel clip score is the product of the "
-              "clipped true-class probabilities. The (term, function) tables of the four task modules, the Jaccard "
+              "clipped true-class probabilities. The drivers take real tags (a term with all its fields, and a value): the "
+              "arrays every metric is computed over are proved to be the encodings of evaluation/encoding.py as property "
+              "C19 models them (C09_tags_bridge), and are characterised by tag equality only (C09_items_by_tag_equality: "
+              "two vocabulary tags that differ in any field are different classes, a near miss is no class). The (term, "
+              "function) tables of the four task modules, the Jaccard "
               "threshold and the AOEF keys of the metric terms are re-extracted on every run and checked by `decide`; the "
               "wrappers accuracy / balanced_accuracy / top_3_accuracy / jaccard / true_class_probability / "
               "classification_score are executed on symbolic score arrays and the extracted decision trees are proved "
               "equal to the model for all score values at small fixed shapes; all four task functions and every metric "
-              "function are run differentially against the model.")
+              "function are run differentially against the model, stand-alone and in histories (several evaluations in one "
+              "process over changing vocabularies, alternating tasks, reused and edited objects), every step judged by the model.")
 LEVEL_NOTE = ("Trusted: Lean kernel; scikit-learn 1.9.1 is not modelled, its conventions (top-k tie order, recall over present "
               "classes, AP step integral, 0 for classes without positives) are stated in the model and compared with sklearn's "
-              "output on every generated case. Unmodelled: binary64/float32 rounding (scores on dyadic grids or one non-dyadic "
+              "output on every generated case. Tags travel to the model as content read from the fields of objects built like "
+              "the ones handed to the code; class indices come from the Lean model of the encoder (C19), never from the "
+              "library's encoder; the geometry matcher's answer is a parameter of the detection driver (C07/C08). Unmodelled: "
+              "binary64/float32 rounding (scores on dyadic grids or one non-dyadic "
               "score per item so that float32 sums are exact; balanced accuracy and AP compared within 2^-40); exp/log of the "
-              "multilabel clip score (closed form compared within 2^-18). The symbolic ties hold in ordered-field semantics at "
+              "multilabel clip score (closed form over the model's encodings compared within 2^-18, also inside the task). The "
+              "symbolic ties hold in ordered-field semantics at "
               "the traced shapes (1-2 items, 1-4 classes); beyond them the model is tied to the code by the regenerated table "
-              "obligations and generator-bounded correspondence.")
+              "obligations and generator-bounded correspondence. Three known findings (one-tag multilabel vocabulary, detection "
+              "without labelled truth, clip-level tasks on clips that carry sound events) are modelled as errors.")
 TECHNIQUE = ("Lean 4 proof over model; metric-term tables, Jaccard threshold and AOEF keys regenerated by introspection and "
              "discharged by decide; symbolic traces of the metric wrappers on numpy object arrays proved equal to the model; "
-             "end-to-end differential correspondence of the four task functions; permutation and AOEF round-trip monitors")
-RULE = ("end-to-end task inputs (vocabularies of 1-6 tags, 1-8 clips, 0-4 sound events per clip, true tags incl. none and "
-        "out-of-vocabulary, dyadic / one-hot non-dyadic / arbitrary (multilabel) scores) and direct calls of the metric functions "
-        "on encoded arrays; non-trivial = the implementation returned a value; distinct = distinct (operation, input)")
+             "end-to-end differential correspondence of the four task functions on tags as content (class indices from the "
+             "C19 encoder model, adversarial tag pools), stand-alone and as histories; permutation and AOEF round-trip monitors")
+RULE = ("end-to-end task inputs (vocabularies of 1-6 tags, sizes 1/2/3/4 forced; tag pools: eight legacy tags / three taxa whose "
+        "classes differ only in the term / random adversarial pools sharing labels, names and values, near misses outside the "
+        "vocabulary, equal contents at several positions incl. repeated predicted tags; 1-8 clips, clips on one side only, 0-4 "
+        "sound events per clip, true tags incl. none and out-of-vocabulary, dyadic / one-hot non-dyadic / arbitrary (multilabel) "
+        "scores, exact ties best class = left-over probability and between classes, scores exactly 0 and 1; the same content "
+        "handed over with shared Tag objects, numpy / int scores, tuples, positional arguments); histories of 3-5 evaluations in "
+        "one process (vocabulary V1, a subset, the subset reordered, V1 again; two tasks alternating over the same live objects; "
+        "objects reused after their tags were assigned, edited in place or model_copy'd; results poisoned by the caller; earlier "
+        "results re-read at the end); direct calls of the metric functions on encoded arrays (float32 / float64, C / Fortran / "
+        "strided, truths as list / tuple / integer / object array); non-trivial = the implementation returned a value; distinct "
+        "= distinct (operation, input)")
 TRUSTED = ["scikit-learn 1.9.1 metrics (balanced_accuracy_score, accuracy_score, average_precision_score, jaccard_score, log_loss): "
            "outputs compared with the Lean definitions on every case",
-           "numpy argmax / argsort(kind='mergesort') / mean",
-           "harness: resolves a tag to the encoder's answer by position in the vocabulary (C19 covers the encoder)"]
-ASSUMPTIONS = ["float32/binary64 sums are exact on the generated scores (dyadic grids 2^-2..2^-4, or a single non-dyadic score per item)",
-               "vocabulary tags pairwise distinct; at most one predicted tag per vocabulary entry and item",
+           "numpy argmax / argsort(kind='mergesort') / mean; np.float32 for the value a score array stores",
+           "harness: reads the content of a tag from the fields of a freshly built Tag (tagpool.content); the class index is "
+           "computed in Lean by C19's model of SimpleEncoder (theorem C09_tags_bridge)",
+           "the geometry matcher (match_geometries): its answer per evaluated clip is a parameter of the detection driver "
+           "(properties C07 / C08 cover it)"]
+ASSUMPTIONS = ["float32/binary64 sums are exact on the generated scores (dyadic grids 2^-1..2^-4, or a single non-dyadic score per item)",
+               "vocabulary tags pairwise distinct by content; a repeated predicted tag is encoded as C19 pins it (the last score wins)",
                "sound_event_classification: predictions and annotations of a clip refer to the same sound events one-to-one"]
 NOT_COMPARED = ["order of the clip evaluations within the result (compared by clip id; C08 pins the order for detection)",
-                "multilabel clip score exp(-log_loss): inside a task it is compared for equality with a recomputation by the "
-                "same library function; that function itself is compared with the model's closed form (product of the clipped "
-                "probabilities of the true classes) only within 2^-18 (float32 logarithms)",
+                "multilabel clip score exp(-log_loss): compared with the model's closed form (product of the clipped probabilities "
+                "of the true classes, over the model's own encodings) within 2^-18 only (float32 logarithms); the evaluation score "
+                "of that task is compared exactly-rounded (2^-40) with the mean of the clip scores the implementation reported",
                 "affinity of sound_event_classification matches (constant 1 in code and model; not part of the statement)",
                 "order of metrics within a list, order of matches within a clip",
+                "SoundEventPrediction.score, clip-level tags in the sound-event tasks (not generated for the stand-alone stream; "
+                "clip-level tags are present and ignored in the histories)",
                 "error messages", "uuids / created_on of the result"]
 
 SINGLE = G.SINGLE_LABEL
 
 
 # ---------------------------------------------------------------- implementation side
-_LIVE = {}      # id(input) -> (input, live Evaluation) of the latest implementation runs (for the AOEF monitor)
-
-
 def _impl_task(inp):
-    ev = G.run_task(inp)
-    if len(_LIVE) > 600:
-        _LIVE.clear()
-    _LIVE[id(inp)] = (inp, ev)
-    return {"val": G.canon_evaluation(ev)}
+    return {"val": G.canon_evaluation(G.run_task(inp))}
 
 
 def _strip(ev):
@@ -250,8 +270,7 @@ def _holds_task_inner(ctx, inp, io, light=False):
     n = ctx.tallies.get("holds:calls", 0)
     ctx.tally("holds:calls")
     rng = ctx.rng
-    live = _LIVE.get(id(inp))
-    ev_obj, ev2 = (live[1] if live is not None and live[0] is inp else None), ev
+    ev_obj, ev2 = None, ev
     if len(inp["predictions"]) > 1 or len(inp["annotations"]) > 1:
         perm = copy.deepcopy(inp)
         rng.shuffle(perm["predictions"])
@@ -890,6 +909,12 @@ def _gen_metric(rng):
                     ["jaccard_2d", "average_precision_2d", "multilabel_example_score_2d"])
     C = rng.randint(2, 6) if fn in ("jaccard", "mean_average_precision_2d", "multilabel_example_score", "jaccard_2d",
                                     "average_precision_2d", "multilabel_example_score_2d") else rng.choice([1, 2, 3, 3, 4, 4, 5, 6])
+    # sizes where an implementation could switch strategy: more than 16 columns (numpy's unstable sorts are insertion
+    # sorts - stable - below that), a thousand items
+    wide = fn in ("accuracy", "balanced_accuracy", "top_3_accuracy", "mean_average_precision") and rng.random() < 0.03
+    if wide:
+        C = rng.randint(17, 40)
+    many = fn in ("accuracy", "balanced_accuracy", "top_3_accuracy", "mean_average_precision") and not wide and rng.random() < 0.004
     # how the arrays are handed over: float32 (what the tasks pass) or float64 scores (dyadic rows then, so that the
     # sums are exact in either width), C / Fortran order / a strided view; the truths as list, tuple, integer array
     # (where every item is labelled) or object array
@@ -908,7 +933,7 @@ def _gen_metric(rng):
         sc = dict((t, s) for t, s in _ml_scores(rng, list(range(C))))
         return [(rat(float(frac(sc[i]))) if f64 else G.f32(sc[i])) if i in sc else "0" for i in range(C)]
     if fn in ("accuracy", "balanced_accuracy", "top_3_accuracy", "mean_average_precision"):
-        n = rng.randint(1, 12)
+        n = rng.randint(1030, 1300) if many else rng.randint(1, 12)
         items = [{"y": rng.choice([None] + list(range(C)) * 2), "row": row()} for _ in range(n)]
         return {"fn": fn, "C": C, "items": items, "how": how}
     if fn in ("true_class_probability", "classification_score"):
@@ -1308,6 +1333,10 @@ def _stage_exhaustive(ctx):
 def _stage_metrics(ctx, n):
     cases = [_gen_metric(ctx.rng) for _ in range(n)]
     for c in cases:
+        if c["C"] > 16:
+            ctx.tally("metric:more-than-16-classes")
+        if len(c.get("items", [])) > 1024:
+            ctx.tally("metric:more-than-1024-items")
         h = c.get("how")
         if h:
             ctx.tally(f"metric:scores={h['dt']}/{h['order']}")
@@ -1328,12 +1357,12 @@ def _stage_histories(ctx, n):
 def run(ctx):
     ctx.stage("tables", _stage_tables, ctx)
     ctx.stage("corpus", ctx.run_corpus, OPS)
-    n = ctx.budget(250, 2500)
+    n = ctx.budget(220, 2500)
     for t in G.TASKS:
         ctx.stage("task:" + t, _stage_task, ctx, t, n)
     ctx.stage("exhaustive", _stage_exhaustive, ctx)
     ctx.stage("histories", _stage_histories, ctx, ctx.budget(160, 1600))
-    ctx.stage("metric functions", _stage_metrics, ctx, ctx.budget(5000, 60000))
+    ctx.stage("metric functions", _stage_metrics, ctx, ctx.budget(4500, 60000))
 
 
 _NEAR_POOL = [{"term": TP.T_GBIF, "value": "Turdus"}, {"term": TP.T_EBIRD, "value": "Turdus"},
